@@ -306,7 +306,7 @@ fn sweep_datagrams(cfg: &Cfg, shard: usize, shards: usize, tier: Tier, out: &mut
 }
 
 /// Random mutations of valid responses and fully random bytes.
-fn random_datagrams(cfg: &Cfg, r: &mut Prng, count: usize, out: &mut Vec<(String, Vec<u8>)>) {
+pub fn random_datagrams(cfg: &Cfg, r: &mut Prng, count: usize, out: &mut Vec<(String, Vec<u8>)>) {
     let exts = build_extension(&scen::random_ext(r));
     for _ in 0..count {
         let kind = r.below(10);
@@ -532,6 +532,9 @@ fn stage2(seed: u64, job: usize, tier: Tier) -> Outcome {
         Ok(Ok(run)) => {
             o.count("tracer_runs_ok", u64::from(run.result.is_ok()));
             o.count("tracer_runs_ended_with_error_value", u64::from(run.result.is_err()));
+            if let Err(e) = &run.result {
+                o.observe("errors_that_ended_a_tracer_run", e.chars().take(70).collect::<String>());
+            }
             o.count(if fields_only { "tracer_runs_with_field_mutations_only" } else { "tracer_runs_with_all_mutations" }, 1);
             o.count("rounds_published_by_running_tracers", run.rounds.len() as u64);
             o.nontrivial = Some(format!("{site}#stage2#{}#{fields_only}", run.result.is_ok()));
